@@ -434,12 +434,18 @@ struct Style {
     trivia: u8,
     /// 0 = `let x = ;`, 1 = closing brace missing, 2 = `fn a)`, 3 = opening brace missing
     brk: u8,
+    /// 0 = the abstract items are functions `fn a()`; 1 = they are impls `ImplA` / `ImplB` of one trait for one
+    /// type, observed by a fixed call that is ambiguous when both exist (its diagnostic lists the impls in
+    /// order, so the observable depends on the order of the items, not only on the set)
+    shape: u8,
 }
 impl Style {
     fn canonical(&self) -> bool {
-        self.trivia <= 1 && self.brk == 0
+        self.trivia <= 1 && self.brk == 0 && self.shape == 0
     }
 }
+
+const IMPL_PRELUDE: &str = "pub trait Shape<T> {\n    fn area(self: T) -> felt252;\n}\n#[derive(Drop)]\npub struct S {}\nfn c13_observer() -> felt252 {\n    S {}.area()\n}\n";
 
 /// A piece of a concrete file.
 #[derive(Clone, Debug)]
@@ -463,6 +469,21 @@ fn lead_text(style: &Style) -> &'static str {
 fn render_seg(seg: &Seg, style: &Style, second_file: bool) -> String {
     match seg {
         Seg::Verbatim(t) => t.clone(),
+        Seg::Synth { name, ver, lead, broken } if style.shape == 1 => {
+            let pre = if second_file { "super::" } else { "" };
+            let mut head = format!("impl Impl{} of {pre}Shape<{pre}S> {{\n    fn area(self: {pre}S) -> felt252 {{\n", name.to_uppercase());
+            let mut body = if *ver == 1 { "        1\n".to_string() } else { "        let z = 5;\n        z\n".to_string() };
+            let mut tail = "    }\n}\n";
+            if *broken {
+                match style.brk {
+                    0 => body = "        let x = ;\n        1\n".into(),
+                    1 => tail = "    }\n\n",
+                    2 => head = format!("impl Impl{}) of {pre}Shape<{pre}S> {{\n    fn area(self: {pre}S) -> felt252 {{\n", name.to_uppercase()),
+                    _ => head = format!("impl Impl{} of {pre}Shape<{pre}S>\n    fn area(self: {pre}S) -> felt252 {{\n", name.to_uppercase()),
+                }
+            }
+            format!("{}{head}{body}{tail}", if *lead { lead_text(style) } else { "" })
+        }
         Seg::Synth { name, ver, lead, broken } => {
             let call = if second_file { "super::a()" } else { "a()" };
             let mut head = format!("fn {name}() -> felt252 {{\n");
@@ -679,6 +700,9 @@ fn concretise(h: &Value, project: &Project, style: &Style, with_expect: bool) ->
                 if f == 0 && nfiles == 2 {
                     segs.push(Seg::Verbatim("mod m;\n".into()));
                 }
+                if f == 0 && style.shape == 1 {
+                    segs.push(Seg::Verbatim(IMPL_PRELUDE.into()));
+                }
                 for it in h["init"][f].as_array().unwrap() {
                     segs.push(abstract_item(it));
                 }
@@ -751,7 +775,7 @@ fn concretise(h: &Value, project: &Project, style: &Style, with_expect: bool) ->
         }
     }
     let how = match project {
-        Project::Synth => json!({"project":"synth","trivia":style.trivia,"brk":style.brk}),
+        Project::Synth => json!({"project":"synth","trivia":style.trivia,"brk":style.brk,"shape":style.shape}),
         Project::Corpus { dir, f1, f2 } => json!({"project":dir,"f1":f1,"f2":f2,"trivia":style.trivia,"brk":style.brk}),
     };
     Script { files, steps, expect, how }
@@ -820,9 +844,10 @@ fn main() {
                     let mut rng = Rng::new(seed ^ ((hi as u64) << 20) ^ ((v as u64) << 8) ^ 0xc13);
                     // variant 0 of the synth project is the canonical rendering the spec predicts
                     let style = if v == 0 && matches!(p, Project::Synth) {
-                        Style { trivia: rng.below(2) as u8, brk: 0 }
+                        Style { trivia: rng.below(2) as u8, brk: 0, shape: 0 }
                     } else {
-                        Style { trivia: rng.below(3) as u8, brk: rng.below(4) as u8 }
+                        let shape = if matches!(p, Project::Synth) { rng.below(2) as u8 } else { 0 };
+                        Style { trivia: rng.below(3) as u8, brk: rng.below(4) as u8, shape }
                     };
                     let with_expect = matches!(p, Project::Synth) && style.canonical();
                     let s = concretise(h, p, &style, with_expect);
